@@ -16,6 +16,7 @@ import (
 
 	"cosmossdk.io/log"
 	abci "github.com/cometbft/cometbft/abci/types"
+	cmtquery "github.com/cometbft/cometbft/libs/pubsub/query"
 	coretypes "github.com/cometbft/cometbft/rpc/core/types"
 	cmtjrpcclient "github.com/cometbft/cometbft/rpc/jsonrpc/client"
 	cmttypes "github.com/cometbft/cometbft/types"
@@ -117,7 +118,7 @@ func ChildMain() int {
 		}
 		Uninstall()
 		sigs[sc.Signature()] = struct{}{}
-		for k, v := range sc.Hits {
+		for k, v := range sc.HitsSnapshot() {
 			l.rep.HookHits[k] += v
 		}
 		l.rep.Trials++
@@ -379,7 +380,12 @@ func (fx *fixtures) event(query string, i int) coretypes.ResultEvent {
 	return coretypes.ResultEvent{Query: query, Data: cmttypes.EventDataTx{TxResult: tx}, Events: map[string][]string{"tm.event": {"Tx"}, "message.module": {"evm"}}}
 }
 
-var knownQueries = []string{"tm.event='NewBlockHeader'", "tm.event='Tx'", "tm.event='Tx' AND message.module='evm'"}
+// the query strings exactly as the filter system / websocket server subscribe with them (normalised by CometBFT's query compiler)
+var knownQueries = []string{
+	cmttypes.QueryForEvent(cmttypes.EventNewBlockHeader).String(),
+	cmttypes.QueryForEvent(cmttypes.EventTx).String(),
+	cmtquery.MustCompile("tm.event='Tx' AND message.module='evm'").String(),
+}
 
 // emitter pushes events for every known query until stopped; returns the number of frames written.
 func emitter(fc *FakeComet, fx *fixtures, stop <-chan struct{}, wg *sync.WaitGroup, sent *atomic.Int64) {
@@ -515,11 +521,23 @@ func (l *legCtx) filtersTrial(r *vh.RNG, t int, fx *fixtures) {
 		return
 	}
 	// bounded progress: after the storm a fresh block filter must see a published header
-	id := api.NewBlockFilter()
+	// (the property is about the node being wedged for good: a probe filter that was torn down by an
+	// uninstall still in flight from the storm - the filter system removes a topic together with every
+	// subscriber that piggy-backs on it - is retried with a fresh filter; only persistent silence counts)
+	var id ethrpc.ID
 	ok := false
-	for i := 0; i < 400 && !ok; i++ {
-		time.Sleep(5 * time.Millisecond)
-		if res, err := api.GetFilterChanges(id); err == nil {
+	for attempt := 0; attempt < 5 && !ok; attempt++ {
+		if attempt > 0 {
+			l.count("filters_probe_retries", 1)
+			time.Sleep(50 * time.Millisecond)
+		}
+		id = api.NewBlockFilter()
+		for i := 0; i < 300 && !ok; i++ {
+			time.Sleep(5 * time.Millisecond)
+			res, err := api.GetFilterChanges(id)
+			if err != nil {
+				break // filter is gone: try a fresh one
+			}
 			if hs, _ := res.([]common.Hash); len(hs) > 0 {
 				ok = true
 			}
@@ -529,7 +547,14 @@ func (l *legCtx) filtersTrial(r *vh.RNG, t int, fx *fixtures) {
 	ewg.Wait()
 	l.count("filters_event_frames_sent", sent.Load())
 	if !ok {
-		l.viol("no-progress:fresh-block-filter-got-nothing-after-load", "filters", map[string]any{"trial": t, "frames_sent": sent.Load(), "subscribes": fc.Subs.Load(), "unsubscribes": fc.Unsub.Load()})
+		hq := knownQueries[0]
+		sig := "no-progress:fresh-block-filter-got-nothing-after-load"
+		if !fc.Subscribed(hq) {
+			// diagnosis: the node holds no CometBFT subscription for new headers any more although filters are installed
+			sig = "event-delivery-wedged:cometbft-subscription-lost-while-filters-installed"
+		}
+		l.viol(sig, "filters", map[string]any{"trial": t, "frames_sent": sent.Load(), "subscribes": fc.Subs.Load(), "unsubscribes": fc.Unsub.Load(),
+			"subscribes_while_still_subscribed": fc.Resub.Load(), "cometbft_subscribed_to_new_headers": fc.Subscribed(hq)})
 	} else {
 		l.count("filters_probe_ok", 1)
 	}
@@ -684,28 +709,45 @@ func (l *legCtx) websocketTrial(r *vh.RNG, t int, fx *fixtures) {
 		return
 	}
 	// bounded progress: the probe connection subscribes now and must be notified of a published header
-	_ = probe.WriteMessage(websocket.TextMessage, []byte(`{"jsonrpc":"2.0","method":"eth_subscribe","id":1,"params":["newHeads"]}`))
+	// (retried on a fresh connection: see the filters leg - only persistent silence counts. One read
+	// deadline per attempt: a gorilla connection is unusable after a read timeout.)
 	ok := false
-	deadlineFrames := sent.Load() + 1
-	for i := 0; i < 600 && !ok; i++ {
-		_ = probe.SetReadDeadline(time.Now().Add(20 * time.Millisecond))
-		_, msg, err := probe.ReadMessage()
-		if err != nil {
-			if ne, isNet := err.(net.Error); isNet && ne.Timeout() {
+	for attempt := 0; attempt < 5 && !ok; attempt++ {
+		pc := probe
+		if attempt > 0 {
+			l.count("ws_probe_retries", 1)
+			time.Sleep(50 * time.Millisecond)
+			c, _, err := websocket.DefaultDialer.Dial(url, nil)
+			if err != nil {
 				continue
 			}
-			break
+			pc = c
 		}
-		if strings.Contains(string(msg), "eth_subscription") {
-			ok = true
+		_ = pc.WriteMessage(websocket.TextMessage, []byte(`{"jsonrpc":"2.0","method":"eth_subscribe","id":1,"params":["newHeads"]}`))
+		_ = pc.SetReadDeadline(time.Now().Add(4 * time.Second))
+		for !ok {
+			_, msg, err := pc.ReadMessage()
+			if err != nil {
+				break
+			}
+			if strings.Contains(string(msg), "eth_subscription") {
+				ok = true
+			}
+		}
+		if pc != probe {
+			_ = pc.Close()
 		}
 	}
-	_ = deadlineFrames
 	close(stop)
 	ewg.Wait()
 	l.count("ws_event_frames_sent", sent.Load())
 	if !ok {
-		l.viol("no-progress:fresh-websocket-subscription-got-nothing-after-load", "websocket", map[string]any{"trial": t, "frames_sent": sent.Load()})
+		sig := "no-progress:fresh-websocket-subscription-got-nothing-after-load"
+		if !fc.Subscribed(knownQueries[0]) {
+			sig = "event-delivery-wedged:cometbft-subscription-lost-while-filters-installed"
+		}
+		l.viol(sig, "websocket", map[string]any{"trial": t, "frames_sent": sent.Load(), "subscribes": fc.Subs.Load(), "unsubscribes": fc.Unsub.Load(),
+			"cometbft_subscribed_to_new_headers": fc.Subscribed(knownQueries[0])})
 	} else {
 		l.count("ws_probe_ok", 1)
 	}
@@ -717,6 +759,19 @@ func (l *legCtx) websocketTrial(r *vh.RNG, t int, fx *fixtures) {
 // ---------------------------------------------------------------------------------------
 
 func (l *legCtx) queriesTrial(r *vh.RNG, t int) {
+	// the same generated history is executed twice from identical generators: first quietly (reference trace),
+	// then with query goroutines hammering the application while the blocks are produced
+	base := r.U64()
+	ref := l.queriesRun(vh.Derive(base, "queries-world", 0), t, false, nil)
+	if ref == nil {
+		return
+	}
+	l.queriesRun(vh.Derive(base, "queries-world", 0), t, true, ref)
+}
+
+// queriesRun produces one history; noisy: with concurrent query goroutines. It returns the per-block trace
+// (app hash + marshalled tx results); with a reference trace every block is compared with it.
+func (l *legCtx) queriesRun(r *vh.RNG, t int, noisy bool, ref [][]byte) [][]byte {
 	w := vh.NewWorld(r, vh.WorldOpts{Chain: vh.Config{Seed: r.U64(), NumVals: 2, Erc20Native: true, StakingCPC: true}, NumEOA: 5, Prog: vh.ProgOpts{MaxLen: 7, Depth: 2}})
 	defer w.C.Cleanup()
 	w.DeployGenerated(6, nil)
@@ -726,48 +781,79 @@ func (l *legCtx) queriesTrial(r *vh.RNG, t int) {
 		data []byte
 	}
 	var qs []q
+	erc20 := common.Address{}
+	for _, m := range app.CPCKeeper.GetAllCustomPrecompiledContractsMeta(w.C.QueryCtx()) {
+		if m.CustomPrecompiledType == 1 { // ERC-20
+			erc20 = common.BytesToAddress(m.Address)
+		}
+	}
 	for i, c := range w.Contracts {
 		to := c.Addr
-		args, _ := json.Marshal(map[string]any{"from": w.EOAs[i%len(w.EOAs)].Addr.Hex(), "to": to.Hex(), "gas": "0x200000", "data": "0x"})
+		from := w.EOAs[i%len(w.EOAs)]
+		args, _ := json.Marshal(map[string]any{"from": from.Addr.Hex(), "to": to.Hex(), "gas": "0x200000", "data": "0x"})
+		b, _ := proto.Marshal(&evmtypes.EthCallRequest{Args: args, GasCap: 25_000_000})
+		qs = append(qs, q{"/ethermint.evm.v1.Query/EthCall", b}, q{"/ethermint.evm.v1.Query/EstimateGas", b})
+		// trace of a call to the same contract (struct logger and call tracer)
+		tx := vh.SignEth(from, vh.LegacyTx(w.C.Nonce(from.Addr), &to, nil, 300000, new(big.Int).Mul(w.C.BaseFee(), big.NewInt(3)), nil))
+		msg := &evmtypes.MsgEthereumTx{}
+		if err := msg.FromEthereumTx(tx, from.Addr); err == nil {
+			for _, tracer := range []string{"", "callTracer"} {
+				tb, _ := proto.Marshal(&evmtypes.QueryTraceTxRequest{Msg: msg, BlockNumber: 2, TraceConfig: &evmtypes.TraceConfig{Tracer: tracer}})
+				qs = append(qs, q{"/ethermint.evm.v1.Query/TraceTx", tb})
+			}
+		}
+	}
+	if erc20 != (common.Address{}) { // state-changing precompile call in query mode: transfer(to, 1)
+		data := append([]byte{0xa9, 0x05, 0x9c, 0xbb}, append(common.LeftPadBytes(w.EOAs[1].Addr.Bytes(), 32), common.LeftPadBytes([]byte{1}, 32)...)...)
+		args, _ := json.Marshal(map[string]any{"from": w.EOAs[0].Addr.Hex(), "to": erc20.Hex(), "gas": "0x200000", "data": "0x" + common.Bytes2Hex(data)})
 		b, _ := proto.Marshal(&evmtypes.EthCallRequest{Args: args, GasCap: 25_000_000})
 		qs = append(qs, q{"/ethermint.evm.v1.Query/EthCall", b}, q{"/ethermint.evm.v1.Query/EstimateGas", b})
 	}
 	for _, a := range w.EOAs {
 		b, _ := proto.Marshal(&evmtypes.QueryBalanceRequest{Address: a.Addr.Hex()})
 		qs = append(qs, q{"/ethermint.evm.v1.Query/Balance", b})
+		b2, _ := proto.Marshal(&evmtypes.QueryCosmosAccountRequest{Address: a.Addr.Hex()})
+		qs = append(qs, q{"/ethermint.evm.v1.Query/CosmosAccount", b2})
 	}
 	b0, _ := proto.Marshal(&evmtypes.QueryParamsRequest{})
-	qs = append(qs, q{"/ethermint.evm.v1.Query/Params", b0})
+	qs = append(qs, q{"/ethermint.evm.v1.Query/Params", b0}, q{"/ethermint.evm.v1.Query/BaseFee", nil}, q{"/ethermint.feemarket.v1.Query/Params", nil},
+		q{"/ethermint.feemarket.v1.Query/BaseFee", nil}, q{"/evermint.cpc.v1.Query/CustomPrecompiledContracts", nil}, q{"/evermint.cpc.v1.Query/Params", nil})
 	var stop atomic.Bool
+	var committed atomic.Int64 // last committed height, published by the block producer
+	committed.Store(w.C.Height)
 	var wg sync.WaitGroup
-	for g := 0; g < 6; g++ {
-		wg.Add(1)
-		go func(g int) {
-			defer wg.Done()
-			i := g
-			for !stop.Load() {
-				x := qs[i%len(qs)]
-				i++
-				h := int64(0)
-				if last := app.LastBlockHeight(); i%3 == 0 && last > 3 {
-					h = last - 1 - int64(i%2)
-				}
-				func() {
-					defer func() {
-						if p := recover(); p != nil {
-							l.viol("panic-escaped:query-during-block-production", "queries", map[string]any{"path": x.path, "panic": fmt.Sprint(p)})
+	if noisy {
+		for g := 0; g < 6; g++ {
+			wg.Add(1)
+			go func(g int) {
+				defer wg.Done()
+				i := g
+				for !stop.Load() {
+					x := qs[i%len(qs)]
+					i++
+					h := int64(0)
+					if last := committed.Load(); i%3 == 0 && last > 3 {
+						h = last - 1 - int64(i%2)
+					}
+					func() {
+						defer func() {
+							if p := recover(); p != nil {
+								l.viol("panic-escaped:query-during-block-production", "queries", map[string]any{"path": x.path, "panic": fmt.Sprint(p)})
+							}
+						}()
+						res, err := app.Query(context.Background(), &abci.RequestQuery{Path: x.path, Data: x.data, Height: h})
+						if err == nil && res.Code == 0 {
+							l.count("queries_ok", 1)
+							l.count("queries_ok:"+x.path, 1)
+						} else {
+							l.count("queries_error", 1)
 						}
 					}()
-					res, err := app.Query(context.Background(), &abci.RequestQuery{Path: x.path, Data: x.data, Height: h})
-					if err == nil && res.Code == 0 {
-						l.count("queries_ok", 1)
-					} else {
-						l.count("queries_error", 1)
-					}
-				}()
-			}
-		}(g)
+				}
+			}(g)
+		}
 	}
+	var trace [][]byte
 	nBlocks := r.Range(15, 30)
 	for b := 0; b < nBlocks; b++ {
 		var plans []*vh.TxPlan
@@ -782,15 +868,39 @@ func (l *legCtx) queriesTrial(r *vh.RNG, t int) {
 		}
 		br := w.C.NextBlock(txs, nil)
 		w.ResetPending()
+		committed.Store(br.Height)
 		if br.Err != nil {
 			l.viol("finalize-block-error:during-queries", "queries", br.Err.Error())
 			break
 		}
-		l.count("queries_blocks_produced", 1)
+		line := append([]byte{}, br.Res.AppHash...)
+		for _, tr := range br.Res.TxResults {
+			bz, _ := proto.Marshal(tr)
+			line = append(line, bz...)
+		}
+		trace = append(trace, line)
+		if noisy {
+			l.count("queries_blocks_produced", 1)
+			if ref != nil {
+				if b >= len(ref) || string(ref[b]) != string(line) {
+					l.viol("block-results-differ-from-the-quiet-twin", "queries", map[string]any{"trial": t, "block_index": b, "height": br.Height,
+						"app_hash_noisy": common.Bytes2Hex(br.Res.AppHash), "app_hash_quiet": func() string {
+							if b < len(ref) && len(ref[b]) >= 32 {
+								return common.Bytes2Hex(ref[b][:32])
+							}
+							return ""
+						}()})
+					break
+				}
+				l.count("queries_blocks_equal_to_quiet_twin", 1)
+			}
+		}
 	}
 	stop.Store(true)
 	wg.Wait()
+	return trace
 }
+
 
 func trunc(s string, n int) string {
 	if len(s) > n {
